@@ -18,6 +18,9 @@ RULE = ('Lane supported: per monitor kind (dt_off, dt_on, dt_on after pastify, c
         'with one unsupported construct inserted at a random position (unbounded and un-pastified bounded future online, with and without '
         'pastify; prev/next/s_prev/s_next/rise/fall in dense time; bounded until in dense-time online, with and without pastify): '
         'parse/pastify/first evaluate/first update must raise RTAMTException; another exception type or a returned value fails, also when the rejected call is repeated on the same object. Lane recover: a bounded-future specification is used without pastify() (rejected), then pastified and used again on the same object: update() must return normally with the values of an object pastified up front. '
+        'Lane struct: the same specification over plain float variables and over (nested) fields of variables of a user-defined type '
+        '(import_module + declare_var(name, Type), paths value / pos.x / pos.y / aux.x of two objects), all five set-ups: the structured form returns normally and with the same values. '
+        'Lane edited: the text of an object is replaced and parsed again (the previous text bound the same names to other formulas and may use other declared variables); the data supply the variables of the new text only: normal return, values of an object that only saw the new text. '
         'Non-trivial = supported: a degenerate shape is present; unsupported: the offending operator is nested below >=1 other operator; '
         'distinct = distinct (formula, data shape, kind) digests.')
 
@@ -354,7 +357,164 @@ def check_recover(case):
     return PASS(True, labels)
 
 
-LANES = [Lane('recover', lambda tier: recover_cases(tier), check_recover, 800, 8000, cand_supported)]
+# ---- variables of a user-defined type (import_module / declare_var(name, Type)), numbers in (nested) fields ----------
+
+@st.composite
+def struct_cases(draw, tier):
+    kind = draw(st.sampled_from(['dt_off', 'dt_on', 'dt_on_past', 'ct_off', 'ct_on']))
+    c = draw(supported_cases(tier, kind))
+    c['shape'] = 'plain'
+    from ..structs import PATHS
+    objs = ['m', 'n']
+    # every variable of the formula becomes a field path of one of two objects
+    slots = [(o, p) for o in objs for p in PATHS]
+    picks = draw(st.permutations(slots))
+    c['paths'] = {v: list(picks[i]) for i, v in enumerate(c['vars'])}
+    if 'signals' in c:
+        # the fields of one object share its time axis
+        ks = [k for k, _ in draw(grid_signal(0, max_samples=6))]
+        c['signals'] = {v: [[k, draw(F.values())] for k in ks] for v in c['vars']}
+    else:
+        c['trace'] = {v: c['trace'][v] for v in c['vars']}
+    return c
+
+
+def run_struct(kind, f, vs, data, paths, structured):
+    from ..structs import Msg, PATHS
+    dense = kind.startswith('ct')
+    base = {'dt_off': 'dt_off', 'dt_on': 'dt_on', 'dt_on_past': 'dt_on', 'ct_off': 'ct_off', 'ct_on': 'ct_on'}[kind]
+    ren = {v: ('%s.%s' % tuple(paths[v]) if structured else v) for v in vs}
+
+    def rn(g):
+        if g[0] == 'var':
+            return ('var', ren[g[1]])
+        return tuple(rn(x) if isinstance(x, tuple) else x for x in g)
+    g = rn(f)
+    text = dense_text(g, Q) if dense else 'out = ' + show(g)
+    objs = sorted(set(paths[v][0] for v in vs))
+    try:
+        if structured:
+            spec = build(base, text, [], parse=False)
+            spec.import_module('vlib.structs', 'Msg')
+            for o in objs:
+                spec.declare_var(o, 'Msg')
+        else:
+            spec = build(base, text, list(vs), parse=False)
+        spec.parse()
+        if kind == 'dt_on_past':
+            spec.pastify()
+
+        def obj_at(o, get):
+            args = [0.0] * len(PATHS)
+            for v in vs:
+                if paths[v][0] == o:
+                    args[PATHS.index(paths[v][1])] = get(v)
+            return Msg(*args)
+        if kind.startswith('dt'):
+            n = len(data[vs[0]])
+            if structured:
+                cols = {o: [obj_at(o, lambda v: data[v][i]) for i in range(n)] for o in objs}
+            else:
+                cols = {v: list(data[v]) for v in vs}
+            if kind == 'dt_off':
+                ds = {'time': [float(i) for i in range(n)]}
+                ds.update(cols)
+                return ('ok', spec.evaluate(ds))
+            return ('ok', [spec.update(i, [(k, col[i]) for k, col in cols.items()]) for i in range(n)])
+        sig = to_time({v: data[v] for v in vs}, Q)
+        if structured:
+            stamps = [t for t, _ in sig[vs[0]]]
+            args = [[o, [[t, obj_at(o, lambda v: sig[v][j][1])] for j, t in enumerate(stamps)]] for o in objs]
+        else:
+            args = [[v, sig[v]] for v in vs]
+        return ('ok', spec.evaluate(*args) if kind == 'ct_off' else spec.update(*args))
+    except RecursionError:
+        raise
+    except Exception as e:  # noqa
+        return exc_outcome(e)
+
+
+def check_struct(case):
+    """The same specification written over plain float variables and over (nested) fields of variables of a user-defined
+    type gives the same results; the structured form returns normally whenever the plain one does."""
+    kind = case['kind']
+    f = from_json(case['formula'])
+    vs = [v for v in case['vars'] if v in F.fvars(f)]
+    labels = ['kind:struct', 'monitor:' + kind] + feature_labels(f)
+    if not vs:
+        return DISCARD('no-variable', labels)
+    if kind == 'dt_on_past' and F.horizon(f) is None:
+        return DISCARD('unbounded', labels)
+    data = data_of(case)
+    plain = run_struct(kind, f, vs, data, case['paths'], False)
+    if plain[0] != 'ok':
+        return DISCARD('plain-raises(other lanes):' + plain[1], labels)
+    st_ = run_struct(kind, f, vs, data, case['paths'], True)
+    desc = 'monitor %s\nspec over plain variables: %s\nfield paths: %s\ndata: %s' % (kind, show(f), {v: '.'.join(case['paths'][v]) for v in vs}, {v: data[v] for v in vs})
+    if st_[0] != 'ok':
+        return FAIL('crash:struct:%s:%s@%s' % (kind, st_[1], st_[4].split(':')[-1]), desc + '\nwith the variables as fields of Msg objects: raised %s: %s at %s\nplain variables: %r' % (
+            st_[1], st_[3], st_[4], plain[1]), labels)
+    if st_[1] != plain[1]:
+        return FAIL('struct-differs:' + kind, desc + '\nfields of objects: %r\nplain variables:   %r' % (st_[1], plain[1]), labels)
+    nested = any('.' in case['paths'][v][1] for v in vs)
+    return PASS(nested, labels + (['nested-field'] if nested else []))
+
+
+def cand_struct(case):
+    for c in cand_supported(case):
+        c = dict(c)
+        if 'signals' in c:
+            n = min(len(s) for s in c['signals'].values())
+            ks = [k for k, _ in next(iter(case['signals'].values()))][:n]
+            if any([k for k, _ in s] != ks for s in c['signals'].values()):
+                continue
+        yield c
+
+
+def edited_cases(tier):
+    from .C12 import edited_hosts
+    return edited_hosts(tier)
+
+
+def check_edited(case):
+    """The text of a specification object is replaced and parsed again (the previous text used other variables and bound
+    the same names to other formulas); the data supply exactly the variables of the new text: evaluation returns
+    normally, with the values of an object that only ever saw the new text."""
+    from ..modular import build_modular, feed
+    from .C09 import describe
+    f = from_json(case['formula'])
+    kind = case['kind']
+    labels = ['kind:edited', 'monitor:' + kind] + feature_labels(f)
+    if not F.fvars(f):
+        return DISCARD('no-variable', labels)
+    if kind == 'dt_on_past' and F.horizon(f) is None:
+        return DISCARD('unbounded', labels)
+    plain = dict(case)
+    plain.pop('previous')
+    try:
+        want = feed(plain, build_modular(plain))
+    except Exception as e:  # noqa
+        return DISCARD('plain-object-raises:' + type(e).__name__, labels)
+    desc = describe(plain) + '\nprevious text of the object: main %s, sub-specifications %s' % (
+        show(from_json(case['previous']['formula'])), [show(from_json(s)) for s in case['previous']['subs']])
+    try:
+        got = feed(case, build_modular(case))
+    except Exception as e:  # noqa
+        o = exc_outcome(e)
+        return FAIL('crash:edited:%s:%s@%s' % (kind, o[1], o[4].split(':')[-1]), desc + '\nafter replacing the text and parsing again, evaluation raised %s: %s at %s\nan object that only saw the new text returns %r' % (
+            o[1], o[3], o[4], want), labels)
+    if got != want:
+        return FAIL('edited-differs:' + kind, desc + '\nafter replacing the text and parsing again: %r\nobject that only saw the new text: %r' % (got, want), labels)
+    pv = set(F.fvars(from_json(case['previous']['formula']))) - set(F.fvars(f))
+    return PASS(bool(pv), labels + (['previous-text-has-other-variables'] if pv else []))
+
+
+def cand_edited(case):
+    from .C12 import cand_edited as ce
+    return ce(case)
+
+
+LANES = [Lane('struct', struct_cases, check_struct, 1200, 15000, cand_struct), Lane('edited', edited_cases, check_edited, 1200, 15000, cand_edited), Lane('recover', lambda tier: recover_cases(tier), check_recover, 800, 8000, cand_supported)]
 for _k in KINDS:
     LANES.append(Lane('sup_' + _k, (lambda k: lambda tier: supported_cases(tier, k))(_k), check_supported, 1500, 20000, cand_supported))
 for _k in UKINDS:
